@@ -8,6 +8,21 @@ _NOTE = ('trusted base: the simulator itself (SimLoop, SimKernel, fake ZeroMQ) '
 _TECH = 'deterministic simulation with fault injection'
 
 META = {
+    'C12': {
+        'level': 'exploration',
+        'text': 'daemons loaded from generated ini files and driven through '
+                '1-8 seeded edits (add / remove watcher, numprocesses only, '
+                'cmd, env sections, other options, options absent from the '
+                'defaults, reverts, no-op rewrites), each followed by a '
+                'waiting reloadconfig; after every reload, at quiescence, '
+                'the daemon is compared with a fresh daemon started on the '
+                'same file in a second simulator universe (watcher set, '
+                'options replies, live workers, command lines, '
+                'environments), and worker pids with those before the reload',
+        'note': _NOTE + '; PYTHONHASHSEED fixed because reload_from_config '
+                'iterates sets of names; statuses are compared through the '
+                'number of live workers',
+        'technique': _TECH + ' (history vs fresh-start twin universe)'},
     'C08': {
         'level': 'exploration',
         'text': 'the real circusd.main() runs inside the simulator on '
